@@ -41,7 +41,6 @@ func VerifC19GetExecutable() {
 
 	res, err := GetExecutable(c, c19Logger(), d.hash)
 
-	vs.Assert("short-executable-crash-condition-is-exact", !crash)
 	if cached || rpcOK {
 		vs.Assert("loaded-executable-is-the-data-source", err == nil && bytes.Equal(res, d.exe))
 		got, cerr := c.fileCache.GetFile(d.hash)
